@@ -242,10 +242,10 @@ func (t attrSelector) Match(n *html.Node) bool {
 	}
 }
 
-// check for equality between `s1` and `s2`, ignoring case if `ignoreCase` is true
+// check for equality between `s1` and `s2`, ignoring ASCII case if `ignoreCase` is true
 func matchInsensitiveValue(s1 string, s2 string, ignoreCase bool) bool {
 	if ignoreCase {
-		return strings.EqualFold(s1, s2)
+		return toLowerASCII(s1) == toLowerASCII(s2)
 	}
 	return s1 == s2
 }
@@ -355,7 +355,7 @@ func attributePrefixMatch(key, val string, n *html.Node, ignoreCase bool) bool {
 				return false
 			}
 			if ignoreCase {
-				return strings.HasPrefix(strings.ToLower(s), strings.ToLower(val))
+				return strings.HasPrefix(toLowerASCII(s), toLowerASCII(val))
 			}
 			return strings.HasPrefix(s, val)
 		})
@@ -370,7 +370,7 @@ func attributeSuffixMatch(key, val string, n *html.Node, ignoreCase bool) bool {
 				return false
 			}
 			if ignoreCase {
-				return strings.HasSuffix(strings.ToLower(s), strings.ToLower(val))
+				return strings.HasSuffix(toLowerASCII(s), toLowerASCII(val))
 			}
 			return strings.HasSuffix(s, val)
 		})
@@ -385,7 +385,7 @@ func attributeSubstringMatch(key, val string, n *html.Node, ignoreCase bool) boo
 				return false
 			}
 			if ignoreCase {
-				return strings.Contains(strings.ToLower(s), strings.ToLower(val))
+				return strings.Contains(toLowerASCII(s), toLowerASCII(val))
 			}
 			return strings.Contains(s, val)
 		})
